@@ -150,6 +150,9 @@ def cases(tier, seed):
         spec = {"solver": solver, "system": system, "t0": t0, "t1": t1, "dt": dt, "grid": grid}
         if solver == "BackwardEuler" and rng.random() < 0.15:
             spec["provoke_truncation"] = True      # Newton budget too small: the solver must announce and return the truncated run
+        if solver.startswith("Scipy") and rng.random() < 0.2:
+            spec["system"] = "blowup_pm"           # a force that blows up inside the horizon: the integrator gives up and the run is truncated
+            spec["provoke_truncation"] = True
         out.append(spec)
     return out
 
@@ -167,7 +170,7 @@ def _rb(rng, RigidBody, r=None, name="body", u0=None):
                      u0=np.zeros(6) if u0 is None else u0, name=name), A, m
 
 
-def build_system(rng, kind, t0):
+def build_system(rng, kind, t0, t1=None):
     """small random real System (not assembled). Returns (system, description)"""
     from cardillo import System
     from cardillo.discrete import PointMass, RigidBody, Frame
@@ -186,6 +189,13 @@ def build_system(rng, kind, t0):
         w = float(rng.uniform(0.5, 3))
         F0 = rng.normal(size=3)
         S.add(pm, Force((lambda t: F0 * np.cos(w * t)) if rng.random() < 0.5 else F0, pm, name="force"))
+    elif kind == "blowup_pm":
+        m = float(loguniform(rng, 0.3, 3))
+        pm = PointMass(m, q0=rng.normal(size=3), u0=rng.normal(size=3), name="pm")
+        ts = t0 + float(rng.uniform(0.35, 0.8)) * ((t1 if t1 is not None else t0 + 1.0) - t0)
+        F0 = rng.normal(size=3)
+        S.add(pm, Force(lambda t: F0 / (ts - t) ** 2 if t < ts else F0 * np.inf, pm, name="force"))
+        d["t_singular"] = ts
     elif kind == "free_rb":
         rb, A, m = _rb(rng, RigidBody, u0=rng.normal(size=6))
         S.add(rb, Force(m * g, rb, B_r_CP=rng.normal(size=3) * 0.2, name="force"))
@@ -381,7 +391,10 @@ def check_contract(ctx, sol, system, solver_name, cls, t0, t1, dt, truncated, de
                 ctx.violation("Solution.__iter__", "record does not equal the corresponding rows of the fields", {**det, "first_mismatch": list(bad)})
     # ---- save / load
     ctx.mon("SAVELOAD:roundtrip")
-    tmp = tempfile.mkdtemp(prefix="verif-c20-")
+    # the SAME file name is reused by all cases of a worker process (a post-processing script overwriting its result file):
+    # what is loaded must be what was saved last
+    tmp = os.path.join(tempfile.gettempdir(), f"verif-c20-{os.getpid()}")
+    os.makedirs(tmp, exist_ok=True)
     try:
         path = os.path.join(tmp, "solution.pkl")
         from cardillo.solver import load_solution
@@ -432,7 +445,7 @@ def run_case(spec, ctx):
         ctx.cls(f"dt:{spec['dt']}")
         ctx.cls("t0:zero" if t0 == 0 else "t0:nonzero")
     with gen.quiet():
-        system, sd = build_system(rng, spec["system"], t0)
+        system, sd = build_system(rng, spec["system"], t0, t1)
         try:
             system.assemble(options=SolverOptions())
         except AssertionError as e:
